@@ -2,7 +2,8 @@
 PROP = 'C13'
 LEAN_MODULES = ['FalconModel.Multipart', 'FalconModel.PeekProofs', 'FalconModel.MultipartProofs', 'FalconModel.ReaderPublic',
                 'FalconModel.MultipartFlat', 'FalconModel.MultipartFlatProofs', 'FalconModel.ReaderMap', 'FalconModel.MultipartBridge',
-                'FalconModel.MultipartAsync', 'FalconModel.MultipartAsyncProofs', 'FalconModel.MultipartAsyncReaderProofs', 'FalconModel.MediaType']
+                'FalconModel.MultipartAsync', 'FalconModel.MultipartAsyncProofs', 'FalconModel.MultipartAsyncReaderProofs', 'FalconModel.MediaType',
+                'FalconModel.QuotedString', 'FalconModel.QuotedStringProofs']
 DRIVERS = ['mpdriver', 'madriver']
 THEOREMS = [
     # ---- cursor level (FalconModel/MultipartFlat.lean: reference encoder Mf.encodeForm, flat parser Mf.next / parseAll / parseFlat;
@@ -52,6 +53,16 @@ THEOREMS = [
     'Ma.readAll_spec', 'Ma.readN_spec', 'Ma.readFrom_spec', 'Ma.prepend_spec', 'Ma.peekLoop_spec', 'Ma.peek_spec', 'Ma.consume_spec',
     'Ma.need_le_fuelOf', 'Ma.weight_lt_big', 'Ma.mu_le',
     'Ma.PInv_reach', 'Ma.arRun_reach', 'Ma.arStep_reach', 'Ma.gstep_reach', 'Ma.nextNorm_reach', 'Ma.readFrom_reach', 'Ma.peek_reach', 'Ma.crun_arOps',
+    # ---- parse_header (Mt.parseHeader, the model behind BodyPart.name / filename / get_text) inverts the reference quoted-string writer
+    #      Qe.quote / Qe.render / Qe.renderG (FalconModel/QuotedString.lean) exactly outside class F46: FalconModel/QuotedStringProofs.lean
+    'Mt.unquote_quote', 'Mt.parseHeader_render', 'Mt.parseHeader_renderG', 'Mt.parseHeader_render_get', 'Mt.render_eq_renderG',
+    'Mt.f46_exact', 'Mt.f46_not_roundtrip', 'Mt.f46_value', 'Mt.parseHeader_render_iff_partial', 'Mt.split_render_iff', 'Mt.split_renderParams_iff',
+    'Mt.field_bad_length', 'Mt.split_render', 'Mt.split_prefix',
+    'Mt.parseParamOld_fuel', 'Mt.quoteAwareEnd_fuel', 'Mt.quoteAwareEnd_eq_cut', 'Mt.parseHeaderOld_eq', 'Mt.pp_semi', 'Mt.parseParamOld_other',
+    'Mt.par_eq_uq', 'Mt.par_eq_odd', 'Mt.count_split', 'Mt.field_scan', 'Mt.field_scanG', 'Mt.esc_scan', 'Mt.esc_scan_out', 'Mt.badPrefix_scan',
+    'Mt.pp_badPair_nosemi', 'Mt.pp_badPair_semi', 'Mt.pp_esc_tail_nosemi', 'Mt.f46_unquote', 'Mt.pass1', 'Mt.pass2',
+    'Mt.addField_field', 'Mt.fold_fields', 'Mt.pget_pset', 'Mt.strip_wrap',
+    'Mt.cd_name_filename', 'Mt.cd_filename_name', 'Mt.cd_name_only', 'Mt.cd_name_back', 'Mt.cd_last_may_end_in_backslash', 'Mt.cd_f46',
 ]
 STATEMENTS = {
     'Mf.parse_encode': 'for every list of parts (raw header lines + content), boundary, preamble, epilogue, with or without the final CRLF: if the form is BoundarySafe (the first --boundary of preamble++--boundary is the appended one; the first CRLF--boundary of content++CRLF--boundary is the appended one, for every part), HeadersSafe (no blank line inside a header block, no CRLF inside a line, no Content-Transfer-Encoding other than binary) and WithinLimits, then parseFlat(encodeForm(parts)) = ok [(header dict of the lines, content) for each part], in order; each side condition has a decided witness that it is needed',
@@ -117,13 +128,32 @@ STATEMENTS = {
     'Ma.tooLarge_sticky': '(repair 913e041 / F39) once get_data has raised "body part is too large", every later get_data on that part raises it again, whatever else the application does with the part in between',
     'Ma.getDataPinned_after_tooLarge': 'REGRESSION WITNESS F39: the code before 913e041 (getDataPinned: cache assigned before the test, test only on the buffering call) raises on the first call and returns the truncated first m+1 bytes on the second; a decided example on the concrete reader sits beside it',
     'Rd.fragment_first_occ': 'cross-chunk delimiter detection: searching buffer[offset:] + next_chunk[:len(d)-1] finds the first occurrence that straddles the buffer edge',
+    'Mt.unquote_quote': 'for EVERY string v: the unquoting of parse_header (strip the outer DQUOTEs, replace backslash-backslash by backslash, then backslash-DQUOTE by DQUOTE) applied to the RFC 9110 quoted-string of v (DQUOTE + v with backslash -> 2 backslashes, DQUOTE -> backslash DQUOTE + DQUOTE) gives back v',
+    'Mt.parseHeader_render': 'THE ROUND TRIP: for every main value without ; " backslash and without white space at its ends, every list of parameters whose names are lower-case tokens, pairwise distinct, and whose VALUES ARE ARBITRARY strings (any characters: ; " backslash = blanks ...) - decidable predicate WF - such that no value FOLLOWED by another parameter ends in a backslash (decidable predicate noF46): parse_header(main; n1="quoted v1"; n2="quoted v2"...) = (main, [(n1, v1), (n2, v2), ...]) in this order',
+    'Mt.parseHeader_renderG': 'the same for the general writer of RFC 9110 5.6.6 - any white space (every character str.strip() removes) before and after each semicolon, names in any case (pairwise distinct after lower-casing), all values as quoted-strings, i.e. what _enc_params(quote_all) of the harness writes: the result is (main, [(lower(name), value)...])',
+    'Mt.parseHeader_render_get': 'under WF and noF46 every written parameter is found under its name with exactly its value (params.get(name) - what BodyPart.name / filename read)',
+    'Mt.f46_exact': 'noF46 IS NECESSARY (class F46, for the whole class with the offending value next to last): for every well-formed prefix of parameters none of whose values ends in a backslash, EVERY value v ending in a backslash and EVERY following parameter (n, w): the parsed dictionary does NOT give w for n (n is absent, or - when w holds a ; - bound to a text without ;)',
+    'Mt.f46_not_roundtrip': 'hence on that class parse_header(render(main, params)) is never (main, params)',
+    'Mt.f46_value': 'the exact outcome in class F46 when the follower value has no ";": for every prefix, v0, n, w the two parameters a="v0\\\\"; n="w" are read as the ONE parameter a = v0"; n="w (name="x\\\\"; filename="y" gives name = x"; filename="y and no filename)',
+    'Mt.parseHeader_render_iff_partial': 'PARTIAL form of the full equivalence (WF -> (parse_header(render) = (main, params) <-> noF46 params)): proved when the only value that may end in a backslash is the one next to last; the implication <- holds for every list (parseHeader_render); -> with the offending value at an arbitrary position is proved only for the splitter (split_render_iff), not for the dictionary',
+    'Mt.split_render_iff': 'THE SPLITTER IS EXACT: for every well-formed rendered header with any number of parameters, _parse_param_old_stdlib returns exactly the written fields [main, n1="..", n2="..", ...] IF AND ONLY IF noF46 (the offending value anywhere): a field after a value ending in a backslash is strictly longer than written (field_bad_length)',
+    'Mt.parseParamOld_fuel': 'the fuel of the model of _parse_param_old_stdlib is sufficient for EVERY input: every fuel >= len(s) gives the same field list (the model is given len(line)+2 for ";"+line); pp_semi / parseParamOld_other are the fuel-free unfolding equations of the while loop',
+    'Mt.quoteAwareEnd_fuel': 'the fuel of the inner while loop (end = s.find(";", end+1) while the quote parity is odd) is sufficient for EVERY input: every fuel > len(s) gives the fuel-free left-to-right scan cut',
+    'Mt.quoteAwareEnd_eq_cut': 'THE SPLITTER IS A TWO-BIT SCAN: for every string s the end computed by the inner while loop is cut(s): read s left to right with the state (previous character is a backslash, number of DQUOTEs not preceded by a backslash is odd) and stop at the first ";" met in an even state (else len(s))',
+    'Mt.par_eq_uq': 'for every prefix a: (a.count(DQUOTE) - a.count(backslash DQUOTE)) % 2 != 0 iff the number of DQUOTEs of a that are not immediately preceded by a backslash is odd (count_split: count(DQUOTE) = count(backslash DQUOTE) + that number)',
+    'Mt.field_scan': 'the parity test on rendered text: scanning blank name="escaped value" from outside quotes never stops inside (every ; of the value is met in an odd state) and ends OUTSIDE quotes iff the value does not end in a backslash - the closing DQUOTE after an escaped backslash is taken for an escaped DQUOTE (the root of F46)',
+    'Mt.cd_name_filename': 'Content-Disposition: form-data; name="N"; filename="F" written by the reference encoder parses to exactly (form-data, name = N, filename = F) for EVERY F and every N that does not end in a backslash',
+    'Mt.cd_filename_name': 'the same in the order filename, name, for every N and every F that does not end in a backslash',
+    'Mt.cd_name_only': 'form-data; name="N" alone: EVERY N comes back, also one ending in a backslash',
+    'Mt.cd_name_back': 'params.get("name") = N and params.get("filename") = F on form-data; name="N"; filename="F" (N not ending in a backslash)',
+    'Mt.cd_f46': 'form-data; name="x\\\\"; filename="F": for every x and F, params.get("filename") is NOT F (the known finding F46 as a theorem about the model)',
 }
 TRUSTED = [
     'the reference multipart encoder and the flat-buffer reference splitter in harness/props/c13.py (written from RFC 7578 / RFC 2046 5.1.1 and the property statement, bytes.find over one bytes object, no buffering)',
     'SIGPROF after 3 CPU-seconds (wall-clock backstop 90 s) / asyncio.wait_for(30 s) deciding "did not return" for the implementation side',
     'CPython json / urllib for the expected value of get_media() on application/json and urlencoded parts',
     'the strict RFC 8187 ext-value decoder, the liberal readings and the judgement table of harness/lib_extvalue.py (written from the RFC grammar; UTF-8 per RFC 3629, ISO-8859-1 and US-ASCII decoded by hand - the UTF-8 decoder agrees with CPython strict decoding on all 1-2 octet strings and 400000 random longer ones); the CPython codec registry for which other charset names denote a text encoding and bytes.decode for those optional charsets',
-    'the reference writer of header parameters (_enc_params/_qstr: RFC 9110 5.6.4 quoted-string with quoted-pairs for DQUOTE and backslash only, RFC 9110 5.6.6 parameters, bare tokens, any attribute-name case, optional blanks around ";") and CPython bytes.decode(charset) for the expected value of get_text() (the documented contract of get_text)',
+    'the reference writer of header parameters (_enc_params/_qstr: RFC 9110 5.6.4 quoted-string with quoted-pairs for DQUOTE and backslash only, RFC 9110 5.6.6 parameters, bare tokens, any attribute-name case, optional blanks around ";"; _qstr and the all-quoted writer are tied character for character to the Lean encoder Qe.quote / Qe.renderG of the round-trip theorems) and CPython bytes.decode(charset) for the expected value of get_text() (the documented contract of get_text)',
 ]
 ASSUMPTIONS = [
     'Lean side of the bridge: chunk size >= len(CRLF--boundary) and >= 4 (Mf.next_refines_flat hypothesis hc); max_body_part_headers_size >= 0 or -1; the application\'s behaviour on a part stream is a (for the given body fixed) list of public reader operations with valid arguments (sizes None/-1/>= 0, delimiters non-empty and <= chunk size); get_data/get_text/get_media (BodyPart accessors, max_body_part_buffer_size) are not operations of the reader model',
@@ -157,6 +187,7 @@ RULE = ('(a1) async model correspondence (madriver): messy / reference-encoded /
         'SECOND-ORDER observation in (a)-(g): every byte string a part hands out (stream.read/peek/read_until/readline, each piece of a read loop, each chunk written by pipe or yielded by an iteration, get_data(), .data) must be exactly a bytes '
         '(type(x) is bytes; a bytearray with the right content is a difference for the oracles and, as a !TYPE suffix the models never emit, for the correspondences); get_data/.data -> bytes and get_text/.text -> str in the buffer-limit oracle; '
         '(f) correspondence parse_header = Mt.parseHeader on ASCII Content-Disposition values from the sweep, Content-Type values with odd charsets and junk over {\" \\ ; = blank HTAB NUL 0x1C ,}; '
+        '(f2) the encoder of the round-trip theorems: 1-4 parameters with distinct names in any case, values from the swept strings / random over the specials (ASCII), white space {empty, SP, HTAB, SP SP, SP HTAB, 0x0B, 0x1F} before and after each semicolon, main values form-data / text/plain / attachment / empty / Form-Data; correspondence _qstr = Qe.quote and header text = Qe.renderG character for character; oracle (the statement of Mt.parseHeader_renderG evaluated on the REAL parse_header): outside class F46 the result is exactly (main, {lower(name): value}) in order; class F46 lines go to the parse_header = Mt.parseHeader correspondence only; '
         'non-trivial = at least one part was yielded or a parse error was raised; distinct = distinct (body, boundary, options, script, chunking, path)')
 PARTIAL = ('Proved in Lean: parse_encode (with decided necessity witnesses), parseAll_encode with biting limits, headers_size_limit_exact, part_count_limit_exact (arbitrary and encoded bodies), '
            'parser_terminates, invalid_is_parse_error_only on the flat parser Mf; the full bridge next_refines_flat (Mp.next over the buffered reader = Mf on the text, every lawful source/chunking, '
@@ -168,7 +199,7 @@ PARTIAL = ('Proved in Lean: parse_encode (with decided necessity witnesses), par
            'async_concrete_error_only, async_chunking_independent for EVERY list of transport pieces; BodyPart.get_data (same body on both stacks): '
            'async_buffer_limit_exact, buffer_limit_every_call, tooLarge_sticky (repair 913e041, F39) with the pinned regression witness. '
            'NOT proved in Lean: (1) get_text/get_media decoding, RFC 5987 decoding of filename* (oracle: strict reference decoder over all single edits of well-formed values + a grammar of malformed ones), the TYPE of the byte strings handed out (not a notion of the models; oracle + rendering), content_type, secure_filename and the mapping '
-           'DelimiterError -> MultipartParseError are outside the models and are carried by the oracle only; parse_header (which name/filename/get_text go through) is MODELLED (Mt.parseHeader, the C11 model, tied here by its own correspondence on Content-Disposition/Content-Type values) but the round trip parse_header(quoted-string(v)) = v for values not in class F46 is not proved - it is decided by the exhaustive pair/triple sweep of the oracle; (2) the bridges need chunk size >= len(CRLF--boundary) (below it next() raises ValueError: correspondence only) '
+           'DelimiterError -> MultipartParseError are outside the models and are carried by the oracle only; parse_header (which name/filename/get_text go through) is MODELLED (Mt.parseHeader, the C11 model, tied here by its own correspondence on Content-Disposition/Content-Type values) and its round trip IS PROVED (FalconModel/QuotedStringProofs.lean): parseHeader_render / parseHeader_renderG - for every main value, every list of distinct token names (any case, any white space around the semicolons) and ARBITRARY values written as RFC 9110 quoted-strings, parse_header gives back exactly the names and values provided no value followed by another parameter ends in a backslash (noF46); unquote_quote for every string; the splitter is a two-bit scan (quoteAwareEnd_eq_cut) whose fuels suffice for every input (parseParamOld_fuel, quoteAwareEnd_fuel); noF46 is necessary: split_render_iff (splitter level, offending value anywhere), f46_exact / f46_value / parseHeader_render_iff_partial (dictionary level, offending value next to last after any well-formed prefix; f46_value is the exact wrong outcome); still NOT proved there: the dictionary-level necessity with the offending value at an arbitrary position (full statement kept in the Lean file; the real function satisfies it on all 67081 two-parameter lists over a 6-symbol alphabet), values written as bare tokens (fast path: correspondence + sweep only), RFC 5987 decoding; (2) the bridges need chunk size >= len(CRLF--boundary) (below it next() raises ValueError: correspondence only) '
            'and max_body_part_headers_size >= 0 or -1; (3) application behaviour is a list of reader operations fixed per body (an adaptive application performs some such list on each body, so this loses nothing for a given run); '
            'on the async side a second `async for` over the same stream (OperationNotAllowed) and tell()/eof are not part of the theorems (tell()/eof are compared in the correspondence). '
            'Mp.next = the real sync parser, Ma.next over Ma.AR = the real async parser and Mf.parseAll = the real sync/async parsers are correspondences (differential), not proofs about Python.')
@@ -188,6 +219,7 @@ def run(ctx):
     _buffer_oracle(ctx)
     _oracle(ctx, section='headers')
     _ph_corr(ctx)
+    _qs_corr(ctx)
 
 
 def _example(ctx):
@@ -1986,13 +2018,16 @@ def _buffer_oracle(ctx):
     asyncio.run(main())
 
 
+_PH_NAME = 'parse_header(Content-Disposition / Content-Type value of a part) = Mt.parseHeader (key and parameter dict), ASCII header values'
+
+
 def _ph_corr(ctx):
     """Ties the model of falcon.util.mediatypes.parse_header (Mt.parseHeader, FalconModel/MediaType.lean - the C11 model, both the fast path
     and the `_parse_param_old_stdlib` quote-parity splitter) to the real function on what C13 feeds it: Content-Disposition values
     with quoted names / filenames from the sweep alphabet, Content-Type values with generated charset parameters, and junk."""
     from falcon.util.mediatypes import parse_header
     rnd = ctx.rng
-    sess = ctx.session('parse_header(Content-Disposition / Content-Type value of a part) = Mt.parseHeader (key and parameter dict), ASCII header values', 'mpdriver')
+    sess = ctx.session(_PH_NAME, 'mpdriver')
 
     def hexc(t):
         return t.encode('latin-1').hex() or '-'
@@ -2017,6 +2052,62 @@ def _ph_corr(ctx):
         ctx.count('ph_' + kind); ctx.count('ph_path_' + ('quote_aware' if ('"' in line or '\\' in line) else 'fast'))
         ctx.seen(('ph', line), bool(pd))
     sess.finish()
+
+
+def _qs_corr(ctx):
+    """Ties the encoder of the round-trip theorems (Qe.quote / Qe.renderG, FalconModel/QuotedString.lean; theorems Mt.parseHeader_render[G],
+    Mt.unquote_quote in QuotedStringProofs.lean) to the reference writer of this harness (_qstr; main + before + ';' + after + Name + '=' + _qstr(v),
+    which is what _enc_params writes when every value is quoted), and evaluates the theorem's statement on the REAL parse_header: outside class
+    F46 (no value followed by another parameter ends in a backslash) the result is exactly (main, {lower(name): value}), in order."""
+    from falcon.util.mediatypes import parse_header
+    from runner import Hang
+    rnd = ctx.rng
+    sess = ctx.session('reference quoted-string writer of the harness (_qstr, all-quoted _enc_params) = Qe.quote / Qe.renderG (the encoder of Mt.parseHeader_render[G]), character for character', 'mpdriver')
+    phs = ctx.session(_PH_NAME, 'mpdriver')      # every generated line, class F46 included, also goes to the model-vs-code correspondence
+    O_RT = 'parse_header inverts the reference quoted-string writer outside class F46: (main, {lower(name): value}) in order (the statement of Mt.parseHeader_renderG on the real function)'
+
+    def hexc(t):
+        return t.encode('latin-1').hex() or '-'
+    swept = [s for s, _c in _swept_strings() if s.isascii()]
+    names = ['name', 'filename', 'charset', 'a', 'x-y', 'q', 'boundary', "k!#$%&'*+.^_`|~0"]
+    ows = ['', ' ', ' ', ' ', '\t', '  ', ' \t', '\x0b', '\x1f']
+    for _ in range(ctx.n(3000, 40000)):
+        main = rnd.choice(['form-data', 'form-data', 'text/plain', 'attachment', '', 'Form-Data'])
+        k = rnd.choice([1, 2, 2, 2, 3, 4])
+        ps = []
+        for nm in rnd.sample(names, k):
+            r = rnd.random()
+            v = (rnd.choice(swept) if r < 0.5 else
+                 ''.join(rnd.choice(_SPECIALS + 'azN0.-/:(&\t') for _c in range(rnd.randint(0, 6))) if r < 0.85 else
+                 ''.join(rnd.choice(['\\', '\\\\', '"', ';', '; ', 'name=', '\\"', '";', 'a', ' ']) for _c in range(rnd.randint(1, 5))))
+            if rnd.random() < 0.15: v += '\\'
+            nm = rnd.choice([nm, nm, nm.upper(), nm.capitalize()])
+            plain = rnd.random() < 0.4            # the plain writer Qe.render: "; " and lower-case names
+            ps.append(('', ' ', nm.lower(), v) if plain else (rnd.choice(ows), rnd.choice(ows), nm, v))
+        line = main + ''.join(b + ';' + a + n + '=' + _qstr(v) for b, a, n, v in ps)
+        f46 = any(v.endswith('\\') for _b, _a, _n, v in ps[:-1])
+        sess.case({'main': main, 'params': [list(p) for p in ps], 'header_value': line, 'class_f46': f46})
+        sess.op('rdg ' + hexc(main) + ' ' + ','.join(':'.join(hexc(x) for x in p) for p in ps), hexc(line))
+        for _b, _a, _n, v in ps:
+            sess.op('qs ' + hexc(v), hexc(_qstr(v)))
+        ctx.count('qs_class_' + ('f46' if f46 else 'roundtrip'))
+        key, pd = parse_header(line)
+        phs.case({'header_value': line, 'kind': 'rendered', 'class_f46': f46})
+        phs.op('ph ' + hexc(line), hexc(key) + ' ' + (';'.join(sorted(hexc(k_) + '=' + hexc(v_) for k_, v_ in pd.items())) or '-'))
+        if not f46:
+            try:
+                with alarm():
+                    key, pd = parse_header(line)
+                got = (key, list(pd.items()))
+            except Hang:
+                got = 'did not return'
+            except Exception as e:  # noqa
+                got = 'raised ' + type(e).__name__
+            want = (main, [(n.lower(), v) for _b, _a, n, v in ps])
+            ctx.oracle(O_RT, got == want, None if got == want else f'parse_header({_short(line)}) = {_short(got)}, written: {_short(want)}',
+                       {'header_value': line, 'main': main, 'params': [list(p) for p in ps]})
+        ctx.seen(('qs', line), True)
+    sess.finish(); phs.finish()
 
 
 def _flatb(x):
@@ -2062,6 +2153,6 @@ LEVEL_TEXT = ('Machine-checked (Lean 4): (i) on the flat parser Mf (MultipartFor
               'Mp.next is tied to the real sync parser (headers, every byte of every part-stream operation, error kinds, sizes asked of the raw stream) and to the real async parser (observable outputs), Ma.next over the transcription of falcon/asgi/reader.py (nested delimit reader, tell()/eof) to the real async parser, '
               'Mf.encodeForm to the harness reference encoder (byte for byte) and Mf.parseAll to the real sync and async parsers (parts, contents, outcome on valid/edited/truncated/messy bodies) by differential correspondences on every run. An independent oracle (reference encoder and flat-buffer splitter written from the statement) '
               'decides parse/encode round trips, consumption and chunking independence, the three limits at their thresholds, damaged bodies and WSGI/ASGI agreement through the real handler, Request and App.')
-LEVEL_NOTE = ('PARTIAL: the BodyPart accessors other than get_data (name/filename/RFC 5987/content_type, get_text/get_media decoding) are oracle-only (parse_header underneath them is tied to its Lean model Mt.parseHeader by a correspondence, no round-trip theorem); chunk sizes below the delimiter length (ValueError) are correspondence-only; '
+LEVEL_NOTE = ('PARTIAL: the BodyPart accessors other than get_data (name/filename/RFC 5987/content_type, get_text/get_media decoding) are oracle-only (parse_header underneath them is tied to its Lean model Mt.parseHeader by a correspondence; its round trip with the reference quoted-string writer is proved outside class F46 - Mt.parseHeader_render[G], necessity Mt.f46_exact / split_render_iff); chunk sizes below the delimiter length (ValueError) are correspondence-only; '
               'model = code is a differential correspondence. Trusted: Lean kernel + standard axioms, the harness, the reference encoder/splitter.')
 TECHNIQUE = 'Lean 4: round-trip/limit/termination proofs on a flat parser + refinement bridge from the parser model over the buffered reader (all chunkings, all consumption histories) + async parse loop over a lawful reader interface (refinement, sync/async agreement) + differential correspondences of both models vs. real sync and async parsers + reference-encoder oracle'
